@@ -415,8 +415,9 @@ func (svr *Server) Serve() error {
 		pktChan <- svr.pktMgr.newOrderedRequest(pkt)
 	}
 
-	close(pktChan) // shuts down sftpServerWorkers
-	wg.Wait()      // wait for all workers to exit
+	close(pktChan)    // shuts down sftpServerWorkers
+	wg.Wait()         // wait for all workers to exit
+	svr.pktMgr.wait() // wait until the responses they produced have been sent
 
 	// close any still-open files
 	for handle, file := range svr.openFiles {
